@@ -543,6 +543,8 @@ class _K(object):
             if inst[(lid, n)][3] != last:
                 continue
             # the copy is appended right after the instance: from there its first segment must match this loop's first node first
+            if isinstance(doc.recs[b].node, _FakeNode) or isinstance(doc.recs[a].node, _FakeNode):
+                continue
             if gen_doc.first_match(doc.recs[b].node, doc.recs[a].node.id, doc.recs[a].vals) is not doc.recs[a].node:
                 continue
             cands.append((a, b, mx - len(sibs) + 1, l))
